@@ -1,7 +1,7 @@
 (* Lemmas about Model/Cast.v: integer text round trip (all Z), error kinds, totality, round trips. *)
 From Coq Require Import ZArith QArith Qreduction String Ascii List Bool Lia DecimalString DecimalZ DecimalPos.
 Import ListNotations.
-From VTL Require Import Base.Val Base.Calendar Model.Types Model.Cast Proofs.PromoteP.
+From VTL Require Import Base.Val Base.Calendar Model.Types Model.Period Model.Cast Proofs.PromoteP.
 Open Scope Z_scope.
 
 (* ------------------------------------------------------------------------------------------------ characters of a printed integer *)
@@ -138,7 +138,7 @@ Qed.
 Lemma cast_total s d v : total_pair s d = true -> has_type s v = true -> exists w, cast_val s d v = Ok w.
 Proof.
   intros Hp Ht. unfold total_pair in Hp.
-  apply andb_prop in Hp as [Hp H2]. apply andb_prop in Hp as [Hm H1].
+  apply andb_prop in Hp as [Hp H3]. apply andb_prop in Hp as [Hp H2]. apply andb_prop in Hp as [Hm H1].
   unfold cast_val. rewrite Hm. simpl.
   destruct v; [eexists; reflexivity | | | |]; rewrite Ht; simpl;
     destruct s, d; try discriminate; eexists; reflexivity.
@@ -146,11 +146,30 @@ Qed.
 
 Lemma total_or_parsing s d :
   modelled s d = true ->
-  total_pair s d = true \/ (s = TString /\ In d [TInteger; TNumber; TDate; TDuration]) \/ (s = TNumber /\ d = TString).
+  total_pair s d = true \/ (s = TString /\ In d [TInteger; TNumber; TDate; TDuration]) \/ (s = TNumber /\ d = TString) \/
+  (s = TTime /\ d = TPeriod).
 Proof.
   intros Hm. destruct s, d; try discriminate Hm;
-    try (left; reflexivity); try (right; left; split; [reflexivity | simpl; tauto]); right; right; split; reflexivity.
+    try (left; reflexivity); try (right; left; split; [reflexivity | simpl; tauto]);
+    try (right; right; left; split; reflexivity); right; right; right; split; reflexivity.
 Qed.
+
+(* ------------------------------------------------------------------------------------------------ Time -> Time_Period *)
+(* soundness, unbounded: the period returned spans exactly the interval *)
+Lemma interval_period_sound a b p : interval_period a b = Some p -> start_date p = a /\ end_date p = b.
+Proof.
+  unfold interval_period. intros H. apply find_some in H as [_ H]. unfold fits in H.
+  apply andb_prop in H as [H1 H2]. split; apply Z.eqb_eq; assumption.
+Qed.
+
+(* completeness on a stated range of years: every valid period is recovered from its own first and last day *)
+Definition periods_of_year (y : Z) : list period :=
+  flat_map (fun i => map (fun n => mkP y i n) (zrange 1 (periods_in_year i y))) all_ind.
+Definition recovered (p : period) : bool :=
+  match interval_period (start_date p) (end_date p) with Some q => period_eqb p q | None => false end.
+Lemma interval_period_complete_1900_2100 :
+  forallb (fun y => forallb recovered (periods_of_year y)) (zrange 1900 201) = true.
+Proof. vm_compute. reflexivity. Qed.
 
 Lemma num_to_str_total q s : q_str q = Some s -> cast_val TNumber TString (VNum q) = Ok (VStr s).
 Proof. intros H. unfold cast_val. simpl. rewrite H. reflexivity. Qed.
